@@ -14,6 +14,7 @@ Decided:
  Z4 backing lifetime: (a) the DMA region whose address is sent in attach-backing is moved into the driver object on
     every Ok path of that operation; (b) every clearing (= None / take) of a stored backing region is preceded on all
     paths by the detach for that resource; (c) drop order is C09.R1; the page count derives from the attached length.
+ Z7 in-flight PCM buffers are removed from the token maps only after pop_used succeeded (no removal before the fallible pop).
  Z5 PCM transfer shape: readable [stream id bytes, chunk] (non-blocking: one buffer), writable [status]; an add only
     when at least 3 descriptors are free; chunks of the configured period size.
  Z6 EDID decoding tables (VESA E-EDID 3.9 / 3.10.2): the standard-timing parser is folded over every first byte and
@@ -30,7 +31,7 @@ EXPLANATION = ("Struct layouts/constants from rustc against the specification ta
                "command constant and of the response-check operand/result; command order and backing lifetime are dominance / "
                "must-precede queries on the inlined MIR of the GPU operations with the helpers as events.")
 CONFIGS = ['def', 'alloc', 'def-rel']    # these drivers need the `alloc` feature
-FLOORS = {'edid_parsers': 2, 'gpu_helpers': 9, 'gpu_commands': 13, 'sound_checks': 5}
+FLOORS = {'edid_parsers': 2, 'gpu_helpers': 9, 'gpu_commands': 13, 'sound_checks': 5, 'pcm_release_fns': {'*': 1, 'noalloc': 0}}
 GPU = 'device::gpu::VirtIOGpu'
 GPU_CMDS = {'GET_DISPLAY_INFO': 0x100, 'RESOURCE_CREATE_2D': 0x101, 'RESOURCE_UNREF': 0x102, 'SET_SCANOUT': 0x103, 'RESOURCE_FLUSH': 0x104,
             'TRANSFER_TO_HOST_2D': 0x105, 'RESOURCE_ATTACH_BACKING': 0x106, 'RESOURCE_DETACH_BACKING': 0x107, 'GET_CAPSET_INFO': 0x108,
@@ -57,6 +58,7 @@ def run(F, R):
     z2_sound(F, R, M, roles)
     z2_misc(F, R, M, roles)
     z5_pcm(F, R, M, roles)
+    z7_release_after_pop(F, R, M, roles)
     z6_edid(F, R)
 
 
@@ -462,6 +464,45 @@ def z5_pcm(F, R, M, roles):
                         if 'status' in fmt(d) and derives_from(d, lambda x: x[0] == 'bin' and x[1] in ('Ne', 'Eq')):
                             cm = True
                 R.check(cm, 'Z2', 'sound:pcm_xfer:status-check', fn_site(F, b['id']), 'each transfer status compared with S_OK', 'PCM transfer statuses are not checked')
+
+
+def z7_release_after_pop(F, R, M, roles):
+    """Buffers of a transfer in flight (kept in maps keyed by the token) are released only once pop_used has succeeded: no
+    map removal precedes the fallible pop on any path, so a poll that fails (not ready / other token) frees nothing the
+    device still owns."""
+    snd = 'device::sound::VirtIOSound'
+    n = 0
+    for b in F.bodies.values():
+        if b.get('impl_adt') != snd or b['kind'] != 'AssocFn' or 'impl_trait' in b or not F.handwritten(b):
+            continue
+        if not any(bl['term']['k'] == 'call' and roles.get(bl['term'].get('fn')) == 'pop_used' for bl in b['blocks']):
+            continue
+        qids = set(roles) | set(x['id'] for x in queue_entry_points(F, M))
+        sg = supergraph(F, b['id'], opaque=lambda t, bb: bb['id'] in qids, tag='c20z7')
+        where = fn_site(F, b['id'])
+        if back_edges(sg):
+            continue
+        try:
+            paths = PathEnum(sg).run()
+        except PathLimit as e:
+            R.abstain('Z7', b['id'], str(e), where)
+            continue
+        rem = lambda e: e[0] == 'call' and 'collections::' in e[2] and e[2].rsplit('::', 1)[-1] in ('remove', 'remove_entry', 'pop_first', 'pop_last', 'clear', 'take')
+        if not any(rem(e) for p in paths for e in p.effects):
+            continue
+        n += 1
+        bad = None
+        for p in paths:
+            pk = [k for k, e in enumerate(p.effects) if e[0] == 'call' and roles.get(e[2]) == 'pop_used']
+            rk = [k for k, e in enumerate(p.effects) if rem(e)]
+            if pk and rk and min(rk) < pk[0]:
+                bad = 'the entry is removed before pop_used is called'
+            if rk and not pk:
+                bad = 'an entry is removed on a path that never pops the token'
+        R.check(bad is None, 'Z7', '%s:release-after-pop' % b['id'], where, 'in-flight buffers leave the bookkeeping only after pop_used',
+                '%s: %s; when the pop fails (transfer not finished, or another token is next) the `?` return drops buffers the device still '
+                'reads / writes and the transfer can never be reaped' % (b['name'], bad))
+    R.count('pcm_release_fns', n)
 
 
 def z6_edid(F, R):
